@@ -539,8 +539,78 @@ def r01h(ck, prog):
     ck.floor("R01h", n, 1, "record-to-record name copies")
 
 
+def r01i(ck, prog):
+    """gap counts -> gapped rows: (1) finalise_alignment renders every sequence - the loop that replaces msa_seq.seq by the
+    rendered row runs over exactly [0, numseq); (2) in make_linear_sequence the gaps[j] dashes are written before residue j
+    (slot j counts the gap columns in front of residue j: the readers count a gap symbol into gaps[len] before the next
+    residue is appended), and the dashes of slot len follow the last residue"""
+    from ..affine import loop_range, single_defs
+    FA = prog.fn("finalise_alignment")
+    n = 0
+    loops = []
+    for a, lhs, rhs in stores_to_field(FA.body, "msa_seq", "seq"):
+        lp = [x for x in a.ancestors() if x.k == "ForStmt"]
+        if lp:
+            loops.append((lp[0], a))
+    if not loops:
+        raise AnalysisBroken("R01i: the loop of finalise_alignment that installs the rendered rows was not found")
+    for lp, a in loops:
+        rng = loop_range(lp, single_defs(FA))
+        n += 1
+        where = site(prog, lp, "render loop")
+        ck.inst("R01i", where, "finalise_alignment installs rendered rows for sequences %s" % ("[%s, %s)" % (rng[1], rng[2]) if rng else "?"), prog.config)
+        if rng is None:
+            raise AnalysisBroken("R01i: the rendering loop of finalise_alignment is not a recognised counting loop")
+        full = rng[1].is_const() and rng[1].c == 0 and rng[2].c == 0 and list(rng[2].t.items()) == [("msa->numseq", 1)]
+        if not full:
+            if not ((rng[1].is_const()) and set(rng[2].t) <= {"msa->numseq"}):
+                raise AnalysisBroken("R01i: the range [%s, %s) of the rendering loop is not comparable with [0, numseq)" % (rng[1], rng[2]))
+            ck.violation("R01i", "R01i/finalise_alignment/coverage", where,
+                         "finalise_alignment renders sequences [%s, %s) instead of [0, numseq): the others keep their ungapped residues while "
+                         "alnlen and the FINAL status are set for all" % (rng[1], rng[2]), prog.config)
+    ML = prog.fn("make_linear_sequence")
+    main = None
+    for lp in ML.body.find("ForStmt"):
+        if any(x.k in ("ForStmt", "WhileStmt") for x in lp.ancestors()):
+            continue
+        body = lp.child("body")
+        res = [s_ for s_ in body.find("BinaryOperator") if s_.d["op"] == "=" and any(m.d.get("field") == "seq" and m.d.get("rec") == "msa_seq" for m in s_.kids[1].find("MemberExpr"))]
+        if res:
+            main = (lp, res[0])
+    if main is None:
+        raise AnalysisBroken("R01i: the residue loop of make_linear_sequence was not found")
+    lp, res = main
+    rng = loop_range(lp)
+    var = rng[0] if rng else None
+    dashes = []
+    for x in lp.child("body").walk():
+        is_dash_store = x.k == "BinaryOperator" and x.d["op"] == "=" and const_value(x.kids[1]) == ord("-")
+        is_dash_set = x.k == "CallExpr" and x.callee == "memset" and len(x.args) == 3 and const_value(x.args[1]) == ord("-")
+        if is_dash_store or is_dash_set:
+            dashes.append(x)
+    n += 1
+    where = site(prog, lp, "residue loop")
+    if not dashes or var is None:
+        raise AnalysisBroken("R01i: how make_linear_sequence writes the gap symbols of slot j is not recognised")
+    # the gap slot the dashes of this iteration stand for: gaps[<loop variable>] in the count / inner bound
+    slot_ok = any(sub.kids[1].strip(casts=True).text() == var for d_ in dashes for anc in [d_] + list(d_.ancestors()) if anc.within(lp.child("body"))
+                  for sub in anc.find("ArraySubscriptExpr") if any(m.d.get("field") == "gaps" for m in sub.kids[0].find("MemberExpr")))
+    pos_d = min(d_.line for d_ in dashes)
+    before = all(ML.cfg.reaches(ML.cfg.position(d_), ML.cfg.position(res), avoid=[ML.cfg.position(lp.child("cond"))]) if ML.cfg.position(d_) is not None and ML.cfg.position(res) is not None else d_.line < res.line for d_ in dashes)
+    ck.inst("R01i", where, "make_linear_sequence: dashes of gaps[%s] are written %s residue %s" % (var, "before" if before else "AFTER", var), prog.config)
+    if not slot_ok:
+        raise AnalysisBroken("R01i: the dashes written in the residue loop are not counted by gaps[%s]" % var)
+    if not before:
+        ck.violation("R01i", "R01i/make_linear_sequence/order", where,
+                     "make_linear_sequence writes residue %s before the gaps[%s] dashes: slot %s counts the gap columns in front of residue %s "
+                     "(that is how the readers and update_gaps fill it), so every residue behind a gap moves left and the columns of a finished "
+                     "group are torn apart" % (var, var, var, var), prog.config)
+    ck.floor("R01i", n, 2, "rendering sites")
+
+
 def run(ck, progs):
     describe(ck)
+    ck.rule("R01i", "finalise_alignment renders all numseq sequences; make_linear_sequence writes the gaps[j] dashes before residue j")
     ck.rule("R01h", "no length-capped copy of a sequence name from one record into another is reachable from the API functions")
     ck.rule("R01g", "path -> gap counts: make_seq's two new-gap vectors never overlap and are int wide, update_gaps only adds sums of their entries (= R10e, R10b)")
     ck.rule("R01f", "the writers emit exactly the columns [0, alnlen) of every row (= R15e; recognised loop shapes only, otherwise no verdict)")
@@ -554,6 +624,7 @@ def run(ck, progs):
         ck.attempt(r01f, ck, prog)
         ck.attempt(r01g, ck, prog)
         ck.attempt(r01h, ck, prog)
+        ck.attempt(r01i, ck, prog)
     return ("CFG must-pass-through / precedence for the six pipeline stages of kalign_run and the three of kalign(); "
             "who-may-read/write table for msa_seq.rank over every function; provenance of every store into a row buffer "
             "and every residue print in the functions reachable from the exporters; status gate reachability and "
